@@ -13,7 +13,7 @@ import (
 func init() {
 	register("C13", &propDef{
 		Title: "The bundle is a function of its inputs, not of order or scheduling",
-		Rules: []func(*Checker){ruleC13Maps, ruleC13Locks, ruleC13Atomic, ruleC13Names, ruleChecksum("C13.checksum"), aliasRule(ruleC08Meta, "C08.meta", "C13.meta", 1)},
+		Rules: []func(*Checker){ruleC13Maps, ruleC13Locks, ruleC13Atomic, ruleC13Names, ruleChecksum("C13.checksum"), aliasRule(ruleC08Meta, "C08.meta", "C13.meta", 1), aliasRule(ruleC17Dep, "C17.dep", "C13.registry", 4)},
 		NotDecided: []string{
 			"equality of bundles across permutations of Add calls (run-time)",
 			"scheduler behaviour beyond lock discipline; totality of sort comparators",
